@@ -66,8 +66,12 @@ def make_contents(seed):
             if e:
                 return None
             return kp.dumps(d, spine_types=['**kern'], include=kp.BEKERN_CATEGORIES, encoding=kp.Encoding.eKern)
-        e1, e2 = api_k2e(k1), api_k2e(k2)
-        if e1 is None or e2 is None or api_k2e(kbad) is not None:
+        try:
+            e1, e2 = api_k2e(k1), api_k2e(k2)
+            bad_ok = api_k2e(kbad) is not None
+        except Exception as ex:  # noqa  the in-memory API raised on a generated, well-formed text: compare with the file path
+            return {'_api_raised': type(ex).__name__ + ': ' + str(ex)[:100], 'K1': k1, 'K2': k2}
+        if e1 is None or e2 is None or bad_ok:
             continue
         n1, n2 = kp.get_kern_from_ekern(e1), kp.get_kern_from_ekern(e2)
         d1 = kp.dumps(kp.loads(k1)[0])
@@ -208,6 +212,40 @@ def main():
         hists = rnd.sample(hists, 12000)
     _CTX['hists'] = hists
     _CTX['table'] = make_contents(a.seed)
+    if '_api_raised' in _CTX['table']:
+        # loads(text) raised on well-formed text: does load(path) read the same bytes?  recorded and judged like any other run
+        import kernpy as kp
+        logs = []
+        for lab in ('K1', 'K2'):
+            d = tempfile.mkdtemp(prefix='kernpy_c20_')
+            try:
+                pth = os.path.join(d, 'a.krn')
+                write_bytes(pth, _CTX['table'][lab])
+                try:
+                    kp.load(pth)
+                    file_ok = True
+                except Exception:  # noqa
+                    file_ok = False
+                try:
+                    kp.loads(_CTX['table'][lab])
+                    text_ok = True
+                except Exception:  # noqa
+                    text_ok = False
+                logs.append([{'ev': 'init', 'snap': [['', 'a', 'krn', lab]]}, {'ev': 'load', 'p': ['', 'a', 'krn'], 'same': file_ok == text_ok and file_ok}])
+            finally:
+                shutil.rmtree(d, ignore_errors=True)
+        verdicts, tl = tlc.validate_traces('Trace_FileCli', logs, shards=1)
+        for t in tl:
+            run.add_tlc(t)
+        run.traces = len(logs)
+        for log, v in zip(logs, verdicts):
+            for pos, clause in v.fails:
+                run.violation({'text': _CTX['table'][log[0]['snap'][0][3]], 'api_exception': _CTX['table']['_api_raised']},
+                              f"clause {clause}: the in-memory API raised ({_CTX['table']['_api_raised']}) on a generated well-formed text, "
+                              f"load(path) of the same bytes behaves differently or fails too", classes=(), symptom=clause)
+        if not run.violations:
+            raise MachineryError('the API raised on generated text but the file path agrees: ' + _CTX['table']['_api_raised'])
+        return run.finish()
     _CTX['subproc'] = rnd.randrange(len(hists))
     import multiprocessing as mp
     with mp.get_context('fork').Pool(16) as pool:
